@@ -311,8 +311,14 @@ func (m *master) scenarios(only string) []*scnRun {
 		}
 		if m.prop == "C13" {
 			// race mode explores one preemption less than the functional check (it is ~5x slower)
-			if b.PB > 1 && m.tier != "thorough" {
-				b.PB = 1
+			if m.tier != "thorough" {
+				lim := 1
+				if s.RacePB > lim {
+					lim = s.RacePB
+				}
+				if b.PB > lim {
+					b.PB = lim
+				}
 			}
 			if m.tier == "thorough" {
 				if b.PB > 2 {
